@@ -47,7 +47,7 @@ class Contract(object):
                  modifies=(), loops=None, trusted=False, kind='function', note='',
                  pure=False, defaults=None, exc_modifies=None, tags=(), must_fail=(), axioms=(),
                  ghost_at=None, rely=None, detached=None, yield_guarantee=(), inline=None, assumed=(),
-                 call_requires=None, local_types=None, seq_only=()):
+                 call_requires=None, local_types=None, seq_only=(), ghost_on_call=None):
         self.qual = qual
         self.params = dict(params or {})
         self.ret = ret
@@ -73,6 +73,9 @@ class Contract(object):
         # callee short name -> [(name, spec)]: extra obligations at every call of that callee made by THIS function,
         # over the caller's state with the callee's bound parameters visible as arg_<param>
         self.call_requires = dict(call_requires or {})
+        # callee short name -> ghost assignments executed when THIS function calls it, over the caller's state with the
+        # callee's BOUND parameters (defaults, *args/**kwargs expanded) visible as arg_<param>
+        self.ghost_on_call = dict(ghost_on_call or {})
         self.local_types = dict(local_types or {})
         # names of ensures that talk about the whole heap / all other objects: valid for one call, NOT composable under
         # the parallel-for rule (several instances would contradict each other) -- the rule skips them
